@@ -429,3 +429,131 @@ def run(ctx, rep, rid="R-C10-tokens"):
                       "rule %s builds this node from the terminals [%s]; no writer of the node (%s) spells `%s`: the rendered text is rejected or parses to another node"
                       % (rn, " ".join(terms), ",".join(ws) or "there is none: the default traversal prints the children only", t))
     r.note("%d node-building sequences with own terminals; %d more sequences have own terminals but build no node an obligation could be attached to (lists, tuples, values handed up): not decided" % (nseq, len(skipped)))
+
+
+# ---- R-C10-glue ---------------------------------------------------------------------------------------------------------------------
+
+def _first_write_action(ctx, b, ov, start, memo, depth=0):
+    """what is the first thing written on the paths from block `start` of renderer function b: 'glued' (write / write_char: no blank is put
+    in front), 'spaced' (write_ws / newline put one), or 'unknown'.  Worst case over the paths: spaced > unknown > glued."""
+    from collections import deque
+    seen, q, out = set(), deque([start]), set()
+    while q:
+        x = q.popleft()
+        if x in seen or b.is_cleanup(x):
+            continue
+        seen.add(x)
+        c = b.call_at(x)
+        if c is not None:
+            nm = c.callee or c.u or ""
+            last = nm.split("::")[-1]
+            if "LibraryRenderer" in nm and last in ("write", "write_char"):
+                out.add("glued")
+                continue
+            if "LibraryRenderer" in nm and last in ("write_ws", "newline"):
+                out.add("spaced")
+                continue
+            if last.startswith("visit_"):
+                tb = ov.get(last)
+                if tb is None or depth > 4:
+                    out.add("unknown")
+                else:
+                    key = (tb.id, 0)
+                    if key not in memo:
+                        memo[key] = "unknown"
+                        memo[key] = _first_write_action(ctx, tb, ov, 0, memo, depth + 1)
+                    out.add(memo[key])
+                continue
+            if "recurse_visit" in last:
+                out.add("unknown")
+                continue
+        t = b.term(x)
+        if t[0] == "ret":
+            out.add("unknown")      # nothing written on this path inside the function
+            continue
+        for s in b.succ(x):
+            q.append(s)
+    for v in ("spaced", "unknown", "glued"):
+        if v in out:
+            return v
+    return "unknown"
+
+
+def run_glue(ctx, rep, rid="R-C10-glue"):
+    """Where the grammar allows no blank - between the pieces of one lexical token: the sign and the digits of `-5`, a type name and its `#` -
+    the writer must not put one.  `write_ws` puts a blank in front of what it writes unless the text ends with one; `write` does not.  For
+    every literal terminal L of a node-building sequence that the grammar glues to its neighbour (no `_` between them), in the override for
+    that node: a constant that *begins* with L and is glued to what comes before must be written with `write`; after a constant that *ends*
+    with L and is glued to what follows, the next thing written on every path must be written without a leading blank."""
+    from rules.c08_trivia import Trivia
+    g = ctx.peg
+    tt = token_texts(ctx)
+    T = Traversal(ctx, "visit")
+    ov = renderer_overrides(ctx)
+    by_type = {}
+    for m, b in ov.items():
+        ty = T.method_type.get(m)
+        if ty:
+            by_type[ty] = b
+    tv = Trivia(g)
+    reach = tv.reachable("library")
+    r = rep.rule(rid, "a literal terminal that the grammar glues to its neighbour (no `_` between them) is written glued: the override for the node writes it with `write` "
+                      "when glued to what precedes it, and what follows it is written without a leading blank when glued to what follows", floor=3,
+                 floor_what="glued literal terminals of nodes that have an override")
+    memo = {}
+    n = 0
+    seen = set()
+    for rule, sq in g.all_seqs():
+        if sq.action is None or rule.name not in reach:
+            continue
+        built = {(a, v) for a, v in built_by_action(ctx, rule, sq) if a in by_type and a not in IGNORE_ADT}
+        if not built:
+            continue
+        cons = []          # (element, glued to the previous consuming element?)
+        gap = True
+        for e in sq.elems:
+            if e.look is not None or e.prim.kind in ("position", "empty"):
+                continue
+            if e.prim.kind == "call" and e.prim.name in ("_", "whitespace", "comment"):
+                gap = True
+                continue
+            cons.append((e, (not gap) and bool(cons)))
+            gap = False
+        for i, (e, glued_prev) in enumerate(cons):
+            t = g.terminal(e.prim)
+            if not t or t[0] != "tok" or e.rep or not tt.get(t[1]):
+                continue
+            glued_next = i + 1 < len(cons) and cons[i + 1][1]
+            if not (glued_prev or glued_next):
+                continue
+            lits = tt[t[1]]
+            for a, v in sorted(built):
+                b = by_type[a]
+                key = (a, t[1], glued_prev, glued_next)
+                if key in seen:
+                    continue
+                seen.add(key)
+                inst = "%s|%s%s%s" % (a.split("::")[-1], "~" if glued_prev else "", lits[0], "~" if glued_next else "")
+                where = "%s:%d" % (b.f["file"], b.f["line"])
+                verdicts = []
+                for c in b.calls():
+                    nm = c.callee or ""
+                    last = nm.split("::")[-1]
+                    if "LibraryRenderer" not in nm or last not in ("write", "write_ws") or len(c.args) < 2:
+                        continue
+                    s0 = b.const_str(c.args[1])
+                    if s0 is None:
+                        continue
+                    for lit in lits:
+                        if glued_prev and s0.upper().startswith(lit) and last == "write_ws":
+                            verdicts.append("`%s` is written with write_ws although nothing may stand between it and what precedes it" % lit)
+                        if glued_next and s0.upper().endswith(lit) and c.target is not None:
+                            nxt = _first_write_action(ctx, b, ov, c.target, memo)
+                            if nxt == "spaced":
+                                verdicts.append("after `%s` the next piece is written with a leading blank although nothing may stand between them" % lit)
+                n += 1
+                if verdicts:
+                    r.finding(inst + "|blank-inside-token", where, "rule %s glues this terminal to its neighbour; in %s %s: the rendered text is rejected" % (rule.name, b.f["name"], verdicts[0]))
+                else:
+                    r.ok(inst, where, "rule %s" % rule.name)
+    r.note("%d glued literal terminals examined" % n)
